@@ -352,7 +352,7 @@ func tlsUnit() harness.Unit {
 var Prop = &harness.Prop{
 	ID:          "C12",
 	Level:       "exploration",
-	Rule:        "full products: 3 keys x 12-byte IV x every (|A|,|P|) of the grid; 3 keys x every IV length 1..64 x 5 IV patterns (zero, 0xff.., position-dependent, tails fffffffe/ffffffff) x |A|,|P| size classes; 0xff in every IV byte position; every single-bit change of IV/AAD/ciphertext/key for 60 shapes per key; large sizes; all call histories (depth 3/4) in which the caller overwrites one key/IV/AAD buffer in place between calls; IVs found by deterministic search whose 32-bit counter wraps. Oracle: cipher.NewGCMWithNonceSize over the independent SM4 (ciphertext, tag, decryption, recomputed tag), canaries on all inputs. Distinct/non-trivial = distinct (key, IV, |A|, |P|) case labels. Fresh-process unit: every sequence of one or two seal/open calls over {zero key, example key} x {12-byte, 7-byte IV}, each in a new process.",
+	Rule:        "full products: 3 keys x 12-byte IV x every (|A|,|P|) of the grid; 3 keys x every IV length 1..64 x 5 IV patterns (zero, 0xff.., position-dependent, tails fffffffe/ffffffff) x |A|,|P| size classes; 0xff in every IV byte position; every single-bit change of IV/AAD/ciphertext/key for 60 shapes per key; large sizes; all call histories (depth 3/4) in which the caller overwrites one key/IV/AAD buffer in place between calls; IVs found by deterministic search whose 32-bit counter wraps. Oracle: cipher.NewGCMWithNonceSize over the independent SM4 (ciphertext, tag, decryption, recomputed tag), canaries on all inputs. Distinct/non-trivial = distinct (key, IV, |A|, |P|) case labels. Fresh-process unit: every sequence of one or two seal/open calls over {zero key, example key} x {12-byte, 7-byte IV}, each in a new process. Results stay the caller's: returned ciphertexts, tags and plaintexts are compared again after later calls.",
 	Assumptions: []string{"Go's crypto/cipher GCM is NIST SP 800-38D for any nonce length", "refsm4 correct (GM/T 0002 vectors)"},
 	Bounds: func(tier string) string {
 		if tier == "thorough" {
